@@ -25,10 +25,10 @@ TOL = 1e-8
 IMPORTS = ('From Coq Require Import List ZArith Bool Arith.\n'
            'Require Import Base.C05_Np Model.C05_BC Model.C06_Galerkin Gen.C06Gen.')
 DEFS = r'''
-Definition mkfe (ne nl nqp : nat) (G : list (list nat)) (P : list (list (list Z))) (W : list (list Z)) : fe Z :=
-  {| nel := ne; nloc := nl; nq := nqp;
+Definition mkfe (ne nl nqp : nat) (sh : list nat) (G : list (list nat)) (P : list (list (list (list Z)))) (W : list (list Z)) : fe Z :=
+  {| nel := ne; nloc := nl; nq := nqp; shape := sh;
      gdof := fun e i => nth i (nth e G []) 0;
-     phi := fun e q i => nth i (nth q (nth e P []) []) 0%Z;
+     phi := fun e q i c => nth c (nth i (nth q (nth e P []) []) []) 0%Z;
      dxw := fun e q => nth q (nth e W []) 0%Z |}.
 Definition run_proj (c : nat * fe Z * list Z) :=
   let '(N, B, x) := c in let r := gen_projection Zops N B x in (dense_of_rows Zops N (fst r), snd r).
@@ -44,13 +44,14 @@ Definition eq_sys := option_eqb (pair_eqb (pair_eqb (pair_eqb zss_eqb zs_eqb) zs
 
 
 class Stub:
-    """duck-typed basis with integer tables; runs the real AbstractBasis._projection"""
+    """duck-typed basis with integer tables; runs the real AbstractBasis._projection.  A basis function is a tuple of
+    fields (composite element); a field with one component is scalar-valued, with k >= 2 components vector-valued."""
 
-    def __init__(self, N, G, P, W):
+    def __init__(self, N, G, P, W, shape):
         from skfem.element import DiscreteField
         from skfem.assembly.basis.abstract_basis import AbstractBasis
         self._ab = AbstractBasis
-        G, P, W = np.array(G), np.array(P, dtype=float), np.array(W, dtype=float)   # G: nel x nloc, P: nel x nq x nloc, W: nel x nq
+        G, P, W = np.array(G), np.array(P, dtype=float), np.array(W, dtype=float)   # G: nel x nloc, P: nel x nq x nloc x ncomp
         self.N = N
         self.element_dofs = G.T.astype(np.int32)
         self.Nbfun = G.shape[1]
@@ -58,7 +59,20 @@ class Stub:
         self.dx = W
         self.X = np.zeros((1, W.shape[1]))
         self.W = np.ones(W.shape[1])
-        self.basis = [(DiscreteField(P[:, :, i].copy()),) for i in range(self.Nbfun)]
+        self.shape = shape
+        self.basis = [self.fields(P[:, :, i, :]) for i in range(self.Nbfun)]
+
+    def fields(self, vals):
+        """vals: nel x nq x ncomp -> tuple of DiscreteFields according to the shape"""
+        from skfem.element import DiscreteField
+        out, off = [], 0
+        for k in self.shape:
+            if k == 1:
+                out.append(DiscreteField(vals[:, :, off].copy()))
+            else:
+                out.append(DiscreteField(np.ascontiguousarray(np.moveaxis(vals[:, :, off:off + k], 2, 0))))
+            off += k
+        return tuple(out)
 
     def default_parameters(self):
         return {}
@@ -83,8 +97,9 @@ def run(ctx):
     ctx.assumptions += ['NOT PROVED: the interpolant of a polynomial solution of the element\'s degree satisfies the free rows '
                         '(Green\'s identity + exact quadrature on affine cells + polynomial completeness of the element)',
                         'NOT PROVED: scipy.sparse.linalg.spsolve returns the solution of a nonsingular system',
-                        'the projection theorems cover scalar-valued components (inner(u, v) = u * v); vector / tensor valued '
-                        'elements are oracle only',
+                        'the projection theorems cover basis functions that are tuples of scalar- or vector-valued fields (composite / '
+                        'vector / H(div) / H(curl) value fields: inner = sum over all components); matrix-valued fields (the ddot branch of '
+                        'helpers.inner, e.g. HHJ) are oracle only',
                         '"M_II nonsingular" enters as injectivity of z |-> M_II z',
                         'float tolerances (1e-8 relative) only on generated, quality-controlled small meshes']
     ctx.cov['rule'] = ('correspondence: stub bases with integer tables nel<=4, nloc<=3, nq<=3, N<=7 (repeated dofs inside a cell '
@@ -117,28 +132,32 @@ def _correspond(ctx, gen_ok):
     proj_cases, sys_cases = [], []
     for it in range(ctx.n(120, 600)):
         nel, nloc, nq = rng.randint(1, 4), rng.randint(1, 3), rng.randint(1, 3)
+        shape = rng.choice([[1], [1], [2], [3], [1, 1], [2, 1], [1, 2, 1]])
+        nc = sum(shape)
         N = rng.randint(1, 7)
         G = [[rng.randrange(N) for _ in range(nloc)] for _ in range(nel)]
-        P = [[[rng.randint(-3, 3) for _ in range(nloc)] for _ in range(nq)] for _ in range(nel)]
+        P = [[[[rng.randint(-3, 3) for _ in range(nc)] for _ in range(nloc)] for _ in range(nq)] for _ in range(nel)]
         W = [[rng.randint(1, 3) for _ in range(nq)] for _ in range(nel)]
         x = [rng.randint(-4, 4) for _ in range(N)]
-        s = Stub(N, G, P, W)
-        interp = np.zeros((nel, nq))
+        s = Stub(N, G, P, W, shape)
+        interp = np.zeros((nel, nq, nc))
         for e in range(nel):
             for q in range(nq):
-                interp[e, q] = sum(x[G[e][j]] * P[e][q][j] for j in range(nloc))
-        M, f = s.projection(DiscreteField(interp))
+                for c in range(nc):
+                    interp[e, q, c] = sum(x[G[e][j]] * P[e][q][j][c] for j in range(nloc))
+        ctx.hist('stub_shape', shape)
+        M, f = s.projection(s.fields(interp))
         Md = [[_ai(v) for v in r] for r in M.toarray()]
         fl = [_ai(v) for v in f]
-        rep = {'N': N, 'G': G, 'P': P, 'W': W, 'x': x, 'nontrivial': nel >= 2 and nloc >= 2}
+        rep = {'N': N, 'shape': shape, 'G': G, 'P': P, 'W': W, 'x': x, 'nontrivial': nel >= 2 and nloc >= 2}
         ctx.count(('stub_projection', N, G, P, W, x), nontrivial=rep['nontrivial'])
         # projection identity on the implementation's own output (exact integers)
         Mx = [sum(Md[i][j] * x[j] for j in range(N)) for i in range(N)]
         if Mx != fl:
             ctx.fail('stub:projection_identity', 'load(interp x) != M x for the pair assembled by the real _projection on a stub basis',
                      dict(rep, M=Md, f=fl))
-        fe = f'(mkfe {cnat(nel)} {cnat(nloc)} {cnat(nq)} {clist([cnats(g) for g in G])} ' \
-             f'{clist([clist([cints(r) for r in Pe]) for Pe in P])} {clist([cints(w) for w in W])})'
+        fe = f'(mkfe {cnat(nel)} {cnat(nloc)} {cnat(nq)} {cnats(shape)} {clist([cnats(g) for g in G])} ' \
+             f'{clist([clist([clist([cints(c) for c in r]) for r in Pe]) for Pe in P])} {clist([cints(w) for w in W])})'
         proj_cases.append((f'({cnat(N)}, {fe}, {cints(x)})', f'({clist([cints(r) for r in Md])}, {cints(fl)})', rep))
         if len(ctx.cov['samples']) < 2 and rep['nontrivial']:
             ctx.sample({'kind': 'stub _projection', 'input': rep, 'impl_M': Md, 'impl_f': fl})
@@ -152,7 +171,6 @@ def _correspond(ctx, gen_ok):
         bl = [_ai(v) for v in bI]
         # x restricted to I solves it when x vanishes outside I (exact)
         xz = [x[i] if i in I else 0 for i in range(N)]
-        s2_interp = np.zeros((nel, nq))          # (all dofs of the cells are in I, so interp is unchanged)
         if [sum(Ad[p][k] * x[I[k]] for k in range(len(I))) for p in range(len(I))] != bl:
             ctx.fail('stub:projection_on_subset', 'x_I does not solve the condensed projection system on a stub basis',
                      dict(rep, I=I, AII=Ad, bI=bl))
@@ -237,6 +255,7 @@ def _oracle(ctx):
                 elem = ef()
                 runs = [('whole', lambda: O.projection_whole(m, elem, rng)),
                         ('whole-complex', lambda: O.projection_complex(m, elem, rng)),
+                        ('parts-complex', lambda: O.projection_complex_parts(m, elem, rng, boundary=kind not in ('line', 'wedge'))),
                         ('subdomain', lambda: O.projection_subdomain(m, elem, rng)),
                         ('subdomain-arg', lambda: O.projection_subdomain(m, elem, rng, via_argument=True))]
                 if kind not in ('line', 'wedge'):
